@@ -51,6 +51,15 @@ pub open spec fn dedup_adj(s: Seq<SqlValue>) -> Seq<SqlValue>
 }
 #[verifier::external_body]
 fn vec_dedup(v: &mut Vec<SqlValue>) ensures final(v)@ == dedup_adj(old(v)@) { unimplemented!() }
+/// first occurrences, in list order (the HashSet::insert-filter idiom)
+pub open spec fn first_occ(s: Seq<SqlValue>) -> Seq<SqlValue>
+    decreases s.len()
+{
+    if s.len() == 0 { s } else if first_occ(s.drop_last()).contains(s.last()) { first_occ(s.drop_last()) } else { first_occ(s.drop_last()).push(s.last()) }
+}
+// let mut seen = HashSet::..; v.into_iter().filter(|k| seen.insert(k.clone())).collect()
+#[verifier::external_body]
+fn dedup_first_occurrences(v: Vec<SqlValue>) -> (r: Vec<SqlValue>) ensures r@ == first_occ(v@) { unimplemented!() }
 #[verifier::external_body]
 fn vec1(x: SqlValue) -> (r: Vec<SqlValue>) ensures r@ == seq![x] { unimplemented!() }
 // Vec::extend(&Vec<usize>) / Vec::extend(Vec<usize>)
@@ -290,10 +299,13 @@ fn main() {}
 _SORT = ('re', r'unique_(keys|values)\.sort\(\);', r'vec_sort(&mut unique_\1);', None)
 _DEDUP = ('re', r'unique_(keys|values)\.dedup\(\);', r'let ghost d0__ = unique_\1@; vec_dedup(&mut unique_\1); proof { if sorted(d0__) { lemma_dedup_sorted(d0__); } }', None)
 _NORM = ('re', r'values\.iter\(\)\.map\(normalize_for_comparison\)\.collect\(\)', 'normalize_all(values)', None)
+# the order-preserving HashSet dedup idiom (a std shape the sort + dedup could be swapped for): recognised so that it FAILS the key-order obligation instead of losing the anchor
+_SEEN = ('re', r'let mut seen = std::collections::HashSet::(?:new\(\)|with_capacity\([^;]*\));', '', None)
+_FILT = ('re', r'(?s)values\s*\.iter\(\)\s*\.map\(normalize_for_comparison\)\s*\.filter\(\|(\w+)\| seen\.insert\(\1\.clone\(\)\)\)\s*\.collect\(\)', 'dedup_first_occurrences(normalize_all(values))', None)
 ITEMS = {
     'multi_lookup': dict(
         file='crates/vibesql-storage/src/database/indexes/point_lookup.rs', path='impl IndexData::fn multi_lookup', ret='r',
-        rewrites=[_NORM, _SORT, _DEDUP,
+        rewrites=[_SEEN, _FILT, _NORM, _SORT, _DEDUP,
                   ('re', r'log::warn!\((?:[^()]|\([^()]*\))*\);', '', None),
                   ('re', r'for key in unique_keys \{', 'let mut ki__: usize = 0; while ki__ < unique_keys.len() { let key = unique_keys[ki__].clone(); ki__ = ki__ + 1;', 1),
                   ('re', r'vec!\[key\]', 'vec1(key)', 1),
@@ -318,7 +330,7 @@ ITEMS = {
 '''),
     'prefix_multi_lookup': dict(
         file='crates/vibesql-storage/src/database/indexes/prefix_match.rs', path='impl IndexData::fn prefix_multi_lookup', ret='r',
-        rewrites=[_NORM, _SORT, _DEDUP,
+        rewrites=[_SEEN, _FILT, _NORM, _SORT, _DEDUP,
                   ('re', r'for value in &unique_values \{', 'proof { assert forall|i: int| 0 <= i < unique_values@.len() implies norm(#[trigger] unique_values@[i]) == unique_values@[i] by { assert(unique_values@.contains(unique_values@[i])); assert(norm_seq(values@).contains(unique_values@[i])); let j = choose|j: int| 0 <= j < norm_seq(values@).len() && norm_seq(values@)[j] == unique_values@[i]; assert(unique_values@[i] == norm(values@[j])); } } let mut ki__: usize = 0; while ki__ < unique_values.len() { let value = &unique_values[ki__]; ki__ = ki__ + 1;', 1),
                   ('re', r'matching_row_indices\.extend\(range_indices\);', 'vec_extend(&mut matching_row_indices, &range_indices);', 1)],
         loops={0: '''
@@ -347,7 +359,7 @@ OBLIGATIONS = {
 CANARIES = ['canary_multi', 'canary_prefix', 'canary_lemma']
 TRUSTED = [
     'SqlValue abstract (Null | V(opaque)); norm = normalize_for_comparison uninterpreted, idempotent (assumed here; unit I-kernels); sv_le = SqlValue::cmp assumed a total order (external_body proof fn sv_total_order; the laws are the subject of unit T-laws)',
-    'external_body std stand-ins with their documented meaning: normalize_all (iter().map(normalize_for_comparison).collect()), vec_sort (Vec::sort: sorted, same elements), vec_dedup (Vec::dedup: consecutive repeats removed, spec dedup_adj), vec1 (vec![x]), vec_extend (Vec::extend), wrap_keys (into_iter().map(|v| vec![v]).collect()), ok_or_empty (Result::unwrap_or_else(|_| vec![])), SqlValue::clone',
+    'external_body std stand-ins with their documented meaning: normalize_all (iter().map(normalize_for_comparison).collect()), vec_sort (Vec::sort: sorted, same elements), vec_dedup (Vec::dedup: consecutive repeats removed, spec dedup_adj), dedup_first_occurrences (the HashSet::insert-filter idiom: first occurrences in list order - recognised only so that swapping it in fails the key-order obligation), vec1 (vec![x]), vec_extend (Vec::extend), wrap_keys (into_iter().map(|v| vec![v]).collect()), ok_or_empty (Result::unwrap_or_else(|_| vec![])), SqlValue::clone',
     'external_body types KeyMap, SharedTree, TreeGuard, Opq (error / page-manager payloads), Val (opaque value); external_body KeyMap::get (BTreeMap::get on Vec<SqlValue> keys), acquire_btree_lock, TreeGuard::multi_lookup (disk B+tree: concatenation of the position lists of the given keys in the given order - assumed contract, not verified)',
     'external_body IndexData::range_scan for start == end, both inclusive: the rows whose first key column equals the normalized bound (prefix_rows, uninterpreted) - range_scan itself (BTreeMap::range) is not under contract',
     'R10 rewrite of the two `for` loops into index loops; log::warn! dropped',
